@@ -288,6 +288,86 @@ theorem cex_explains :
     judgeA mMapEdge [{ code := "E0277".toList, file := "types".toList, ikind := "struct".toList, iname := "A".toList, name := "C".toList, trait := "Serialize".toList }]
       = ⟨false, []⟩ := by decide
 
+/-! ### the two expression-level clauses: helper constructors vs. `Box` payloads, `str::parse` vs. `FromStr` -/
+
+theorem ctorBoxViols_sub (m : Mod) (it : Item) (h : it ∈ m.items) : ∀ v ∈ ctorBoxViols it, v ∈ violations m := by
+  intro v hv
+  unfold violations shapeViols
+  refine List.mem_append_right _ (List.mem_append_left _ (List.mem_append_left _ ?_))
+  exact List.mem_flatMap.mpr ⟨it, h, List.mem_append_right _ hv⟩
+
+theorem hdrParseViols_sub (m : Mod) (it : Item) (h : it ∈ m.items) : ∀ v ∈ hdrParseViols m it, v ∈ violations m := by
+  intro v hv
+  unfold violations shapeViols
+  refine List.mem_append_right _ (List.mem_append_left _ (List.mem_append_left _ ?_))
+  exact List.mem_flatMap.mpr ⟨it, h, List.mem_append_left _ (List.mem_append_right _ hv)⟩
+
+/-- in a well-formed module EVERY helper constructor of EVERY enum agrees with its variant about `Box` -/
+theorem WF_ctor_box (m : Mod) (hw : WF m = true) (it : Item) (hit : it ∈ m.items) (hk : it.kind = "enum".toList)
+    (v : Name) (cb pb : Bool) (hc : (v, cb) ∈ it.helperCtors) (hv : it.vboxed.lookup v = some pb) : pb = cb := by
+  by_cases hne : pb = cb
+  · exact hne
+  exfalso
+  have hmem : Viol.ctorBoxMismatch it.name v ∈ ctorBoxViols it := by
+    unfold ctorBoxViols
+    simp only [hk, beq_self_eq_true, if_true, List.mem_flatMap]
+    refine ⟨(v, cb), hc, ?_⟩
+    simp only [hv]
+    have : (pb != cb) = true := by simpa using hne
+    simp [this]
+  have := ctorBoxViols_sub m it hit _ hmem
+  unfold WF at hw
+  simp only [List.isEmpty_iff] at hw
+  rw [hw] at this
+  cases this
+
+/-- in a well-formed module every header member built with `str::parse` has a type with `FromStr` -/
+theorem WF_header_parse (m : Mod) (hw : WF m = true) (it : Item) (hit : it ∈ m.items) (hk : it.kind = "struct".toList)
+    (fd : Fld) (hf : fd ∈ it.fields) (hp : fd.hdrParse = true) (r : Ref) (hr : r ∈ fd.refs) (hm : r.map = false) (hv : r.vec = false) :
+    capable m (·.fromStr) 4 r.to = true := by
+  by_cases hne : capable m (·.fromStr) 4 r.to = true
+  · exact hne
+  exfalso
+  have hmem : Viol.headerParseNoFromStr it.name r.to ∈ hdrParseViols m it := by
+    unfold hdrParseViols
+    simp only [hk, beq_self_eq_true, if_true, List.mem_flatMap, List.mem_filter]
+    refine ⟨fd, ⟨hf, hp⟩, r, hr, ?_⟩
+    have : capable m (·.fromStr) 4 r.to = false := by simpa using hne
+    simp [hm, hv, this]
+  have := hdrParseViols_sub m it hit _ hmem
+  unfold WF at hw
+  simp only [List.isEmpty_iff] at hw
+  rw [hw] at this
+  cases this
+
+/-- neither clause has a class: a violation of either is always reported -/
+theorem expr_clauses_unlisted (m : Mod) (a b : Name) :
+    classOf m (.ctorBoxMismatch a b) = none ∧ classOf m (.headerParseNoFromStr a b) = none := ⟨rfl, rfl⟩
+
+def mCtorBox (ctorBoxed : Bool) : Mod :=
+  { mode := "types".toList, schemas := ["Expr".toList, "Negation".toList],
+    items := [{ file := "types".toList, kind := "enum".toList, name := "Expr".toList, vis := "pub".toList, ser := true, de := true,
+                fields := [{ name := [], refs := [{ to := "Negation".toList, map := false, vec := false, wrap := true }] }],
+                variants := ["Negation".toList], vboxed := [("Negation".toList, true)], helperCtors := [("Negation".toList, ctorBoxed)] },
+              { file := "types".toList, kind := "struct".toList, name := "Negation".toList, vis := "pub".toList, ser := true, de := true }],
+    imports := [], mentions := [] }
+
+/-- a helper constructor `Self::Negation(Negation { .. })` of a variant `Negation(Box<Negation>)` is a violation WITHOUT a
+class (rustc: E0308); with `Box::new(..)` the digest is well-formed -/
+theorem ctor_box_mismatch_unlisted : judgeWF (mCtorBox false) = ⟨false, []⟩ ∧ judgeWF (mCtorBox true) = ⟨true, []⟩ := by decide
+
+def mHdrParse (enumHasFromStr : Bool) : Mod :=
+  { mode := "server-mod".toList, schemas := [],
+    items := [{ file := "types".toList, kind := "struct".toList, name := "OpRequestHeader".toList, vis := "pub".toList,
+                fields := [{ name := "x_mode".toList, refs := [{ to := "OpRequestHeaderXMode".toList, map := false, vec := false }], hdrParse := true },
+                           { name := "x_n".toList, refs := [], opt := true, hdrParse := true }] },
+              { file := "types".toList, kind := "enum".toList, name := "OpRequestHeaderXMode".toList, vis := "pub".toList, de := true, fromStr := enumHasFromStr }],
+    imports := [], mentions := [] }
+
+/-- an enum header member extracted with `value.parse()` whose enum has no `impl FromStr` (rustc: E0277) is a violation
+WITHOUT a class; primitives need nothing -/
+theorem header_parse_needs_fromstr_unlisted : judgeWF (mHdrParse false) = ⟨false, []⟩ ∧ judgeWF (mHdrParse true) = ⟨true, []⟩ := by decide
+
 def mOk : Mod :=
   { mode := "types".toList, schemas := ["B".toList],
     items := [{ file := "types".toList, kind := "struct".toList, name := "B".toList, vis := "pub".toList, de := true }],
